@@ -107,6 +107,39 @@ Fixpoint s2_run (l : entries) (ops : list (op K V)) : list (out V * evlog K V) :
   | o :: ops' => let (l', r) := s2_step l o in r :: s2_run l' ops'
   end.
 
+(* ---- a condition on the history alone under which known finding F2 cannot show ----
+   (used by C08_lru_settled_partial; evaluated on the reference, no knowledge of the heap needed)
+   [hits l o]: the call finds its key present and so makes the store call heapq.Remove at an
+   arbitrary offset (Get, Remove, and a Put that replaces).
+   [settles l o]: Some true = afterwards the entry just stored/used is the most recent one and sits
+   in the last heap slot (accepted Put, successful Get) or the cache is empty (Clear); Some false =
+   a successful Remove (the last slot holds whatever was next to last); None = nothing changed.
+   [settled top l ops]: every call that hits starts either right after a settling call (top), or
+   with at most 5 entries present (a heap that small cannot be disordered by one removal). *)
+Definition hits (l : entries) (o : op K V) : bool :=
+  match o with
+  | OPut k v => if sizeOf v >? limit then false else match find l k with Some _ => true | None => false end
+  | OGet k | ORemove k => match find l k with Some _ => true | None => false end
+  | _ => false
+  end.
+
+Definition settles (l : entries) (o : op K V) : option bool :=
+  match o with
+  | OPut k v => if sizeOf v >? limit then None else Some true
+  | OGet k => match find l k with Some _ => Some true | None => None end
+  | ORemove k => match find l k with Some _ => Some false | None => None end
+  | OClear => Some true
+  | _ => None
+  end.
+
+Fixpoint settled (top : bool) (l : entries) (ops : list (op K V)) : bool :=
+  match ops with
+  | [] => true
+  | o :: ops' =>
+    (negb (hits l o) || top || (Z.of_nat (length l) <=? 5)) &&
+    settled (match settles l o with Some b => b | None => top end) (fst (s2_step l o)) ops'
+  end.
+
 (* the reference's state after every call *)
 Fixpoint s2_states (l : entries) (ops : list (op K V)) : list entries :=
   match ops with
